@@ -8,7 +8,7 @@ def trigger(scr):
 def run(ctx):
     if not hc.ensure_builds(ctx): hc.finish(ctx, 'builds failed')
     n = 700 if ctx.quick() else 15000
-    H, impl, model, dis, hits = hc.run_profile(ctx, profiles.C09, n, trigger=trigger, claims=lambda op, a, b: a in ('OK', 'ERR') or b in ('OK', 'ERR'))
+    H, impl, model, dis, hits = hc.run_profile(ctx, profiles.with_scenarios(profiles.C09, 0.08), n, trigger=trigger, claims=lambda op, a, b: a in ('OK', 'ERR') or b in ('OK', 'ERR'))
     errs = sum(v for k, v in ctx.hist.items() if k.endswith(':ERR')); tot = sum(ctx.hist.values())
     ctx.cov['error_share'] = round(errs / max(1, tot), 3)
     hc.vm_crosscheck(ctx, H, model)
